@@ -71,8 +71,11 @@ for (n, d, f, shapes) in [
     ("c02_l1_move_", "reserve(end) + move_region + take_reserved: old extent becomes pending, region keyed at the reserved target, reservation consumed, len() accounts for the reservation",
      ["rawdb::Layout::{reserve,take_reserved,move_region,insert_region}"], "RHR RRPH HR"),
 ]:
-    reg(H(n, "rawdb", "C02", mem=8, timeout=600, group=True, desc=d + " [shapes: " + shapes + "]",
-          bounds=L1B, functions=f, stubs=[FMT]))
+    reg(H(n, "rawdb", "C02", mem=8, timeout=1500, group=True, desc=d + " [shapes: " + shapes + "]",
+          bounds=L1B, functions=f, stubs=[FMT], also=("C01", "C05", "C10", "C12"),
+          quick_for={"c02_l1_last_": {"C02", "C05", "C10", "C12"}, "c02_l1_promote_": {"C02", "C01", "C10", "C12"},
+                     "c02_l1_find_": {"C02"}, "c02_l1_compress_": {"C02"}, "c02_l1_remove_": {"C02"},
+                     "c02_l1_move_": {"C02"}}[n]))
 
 
 # ---------------------------------------------------------------------------------------------
@@ -97,6 +100,7 @@ reg(
 # ---------------------------------------------------------------------------------------------
 # Level 2: real rawdb operations on a Database built directly (real Layout, real metadata)
 # ---------------------------------------------------------------------------------------------
+SLOT = "RegionMetadata::write_if_dirty: cfg(kani) hook records the slot write as a ghost event with the decoded fields (the 4 KiB encoding is decided separately by the C17 codec harnesses)"
 SBG = "Database::sync_bg_tasks -> Ok(()) (background tasks outside every claim)"
 L2B = ("database world of a concrete shape with concrete extent sizes in pages (listed in the harness name: r/x = region, "
        "h = promoted hole, p = pending hole; x = the region written to); symbolic: region content lengths, metadata "
@@ -111,26 +115,96 @@ WD = ("one real write step from an arbitrary INV state: placement algebra (new s
       "new_start+offset, old bytes copied iff relocated, copy before write before slot), frame (no other region's extent or "
       "metadata touched), INV re-established pointwise, best-fit reuse, slot written with final values; refused write "
       "(offset beyond end / growth failure) has no effect")
-for (n, tier) in [("c01_write_x1h4r1", "quick"), ("c01_write_x1p1", "quick"), ("c01_write_r1x1", "thorough"),
-                  ("c01_write_x1h1r1", "thorough"), ("c01_write_x1r1h2r1h4", "thorough"), ("c01_write_x1r1h2", "thorough"),
-                  ("c01_write_x2r1", "thorough"), ("c01_write_h1x1r1", "thorough"), ("c01_write_x1h2p1", "thorough")]:
-    for prop in ("C01",):
-        reg(H(n, "rawdb", prop, tier=tier, mem=24, timeout=2400, desc=WD, bounds=L2B, functions=L2F, stubs=[FMT, SBG]))
+for (n, q) in [("c01_write_x1h4r1", {"C01", "C02"}), ("c01_write_x1p1", {"C05"}), ("c01_write_r1x1", {"C13"}),
+               ("c01_write_x1h1r1", set()), ("c01_write_x1r1h2r1h4", set()), ("c01_write_x1r1h2", set()),
+               ("c01_write_x2r1", set()), ("c01_write_h1x1r1", set()), ("c01_write_x1h2p1", set())]:
+    reg(H(n, "rawdb", "C01", mem=40, timeout=3000, desc=WD, bounds=L2B, functions=L2F, stubs=[FMT, SBG, SLOT],
+          also=("C02", "C05", "C13"), quick_for=q))
+
+L2M = ("database world of concrete shape and extent sizes (2-3 extents); symbolic region content lengths, metadata states, "
+       "dirty bounds, file length, operation arguments; ghost-mode files")
+reg(
+    H("c01_truncate_step", "rawdb", "C01", mem=12, timeout=900, also=("C13",), quick_for={"C01", "C13"},
+      desc="Region::truncate(from) from an arbitrary state: from < len sets the length and writes exactly the slot; from == len is a no-op; from > len is refused with no effect; layout, other regions, data bytes untouched; no lock left held",
+      bounds=L2M + "; from any usize", functions=["rawdb::Region::truncate", "rawdb::RegionMetadata::{set_len,write_if_dirty}"], stubs=[FMT, SBG, SLOT, TOVEC]),
+    H("c01_rename_step", "rawdb", "C01", mem=14, timeout=900, also=("C13",), quick_for={"C01", "C13"},
+      desc="Region::rename: onto a fresh name updates name index + metadata + slot; onto an existing name (another region's or its own) is refused and changes nothing (index, metadata id, dirty state, no event)",
+      bounds=L2M + "; target name in {other region's, own, fresh}; one-byte names", functions=["rawdb::Region::rename", "rawdb::Regions::rename", "rawdb::RegionMetadata::set_id"], stubs=[FMT, SBG, SLOT, TOVEC]),
+    H("c01_remove_step", "rawdb", "C01", mem=30, timeout=1800, also=("C02", "C05", "C12"), tier="thorough",
+      desc="Region::remove (no other handle): extent becomes a *pending* hole (bytes intact until flush), name and slot freed, slot zeroed on disk, nothing else changes, INV holds",
+      bounds=L2M + " [R1 x2 H1]", functions=["rawdb::Region::remove", "rawdb::Layout::remove_region", "rawdb::Regions::remove"], stubs=[FMT, SBG, SLOT, TOVEC]),
+    H("c01_remove_last_step", "rawdb", "C01", mem=30, timeout=1800, also=("C02",), tier="thorough",
+      desc="Region::remove of the last region behind a hole", bounds=L2M + " [H1 x1]",
+      functions=["rawdb::Region::remove"], stubs=[FMT, SBG, SLOT, TOVEC]),
+    H("c13_remove_refused_no_effect", "rawdb", "C13", mem=36, timeout=2400, also=("C02",), quick_for={"C13"},
+      desc="Region::remove while another handle to the region is alive is refused (RegionStillReferenced) and has no effect: layout classification of every byte, name index, slot table unchanged, no event",
+      bounds=L2M + " [R1 x2 H1], one extra live handle", functions=["rawdb::Region::remove", "rawdb::Layout::remove_region", "rawdb::Regions::remove"], stubs=[FMT, SBG, SLOT, TOVEC]),
+)
+
+PROM = "Layout::promote_pending_holes -> stub that records a ghost 'promote' event and empties the pending map (the real function is decided by c02_l1_promote_*)"
+reg(
+    H("c05_flush_order", "rawdb", "C05", mem=30, timeout=2400, tier="thorough", also=("C12",),
+      desc="Database::flush from an arbitrary state (2 regions with symbolic dirty states/bounds, 1 pending hole), with symbolic sync/flush failures: data async-flush range covers every dirty byte; regions async flush; fdatasync(data) strictly before fdatasync(regions); regions marked clean only after both; pending holes promoted only after both syncs (last effect) and never on a failed flush; no data/slot/length event; no lock left held",
+      bounds=L2M + " [R1 R1 P1]; fault flags fail_sync, fail_flush symbolic", functions=["rawdb::Database::flush", "rawdb::Regions::{flush,sync_data}", "rawdb::Region::{take_dirty_bounds,restore_dirty_bounds}", "rawdb::RegionMetadata::{needs_flush,mark_clean}"],
+      stubs=[FMT, SBG, PROM], assumes=["a region in state NEEDS_WRITE (never written) has no dirty data range"]),
+    H("c11_flush_lock_order", "rawdb", "C11", mem=30, timeout=2400,
+      desc="lock tap over Database::flush: every lock request happens while only locks of strictly smaller class (layout < regions < mmap < file < meta < dirty_bounds) are held, no held lock is requested again, nothing held at return",
+      bounds=L2M + " [R1 P1]", functions=["rawdb::Database::flush (all lock acquisitions)"], stubs=[FMT, SBG, PROM]),
+    H("c11_compact_lock_order", "rawdb", "C11", mem=30, timeout=2400,
+      desc="lock tap over Database::compact (flush + punch_holes): same obligations; in particular the file read guard is released before file() is taken again for the final sync",
+      bounds=L2M + " [R2 H1]", functions=["rawdb::Database::{compact,punch_holes,approx_has_punchable_data}", "rawdb::HolePunch::punch"], stubs=[FMT, SBG, PROM]),
+    H("c12_compact_step", "rawdb", "C12", mem=36, timeout=3000, tier="thorough",
+      desc="Database::compact from an arbitrary state: every punched range is page aligned and lies in the unused tail of a region's reserve or in a promoted hole; never intersects a byte below ceil_page(len) of a live region; no region geometry changes; no SetLen (KEEP_SIZE asserted at the libc model); no lock left held",
+      bounds=L2M + " [R2 H1 R1 P1]; pread samples symbolic", functions=["rawdb::Database::{compact,flush,punch_holes,approx_has_punchable_data}", "rawdb::HolePunch::punch"], stubs=[FMT, SBG, PROM]),
+)
+for (n, q) in [("c02_create_r1h2r1h1", False), ("c02_create_r1p1", False), ("c02_create_r1r1", False)]:
+    reg(H(n, "rawdb", "C02", mem=30, timeout=2400, tier="thorough", also=("C01",),
+          desc="Database::create_region_if_needed: a new region is placed at the start of a smallest promoted hole if one exists (pending holes are not reused), else at the end with the file grown first; registered under its name in the first free slot; existing name returns the existing region with no effect; growth failure has no effect; INV pointwise",
+          bounds=L2M + "; name existing/new, growth failure symbolic", functions=["rawdb::Database::{create_region_if_needed,set_min_len}", "rawdb::Regions::create", "rawdb::Layout::{find_smallest_adequate_hole,remove_or_compress_hole,insert_region}"], stubs=[FMT, SBG, SLOT, TOVEC]))
+
+# ---------------------------------------------------------------------------------------------
+# C06 / C19: EagerVec generic compute code over the storage model
+# ---------------------------------------------------------------------------------------------
+C06B = ("inductive one-call form: source = mock ReadableVec (symbolic u32 contents, length <= 3), output = EagerVec over the storage "
+        "model in an arbitrary state (length p <= 3 split arbitrarily into stored/pushed, prefix c correct w.r.t. the current source, "
+        "rest arbitrary = stale), call with symbolic max_from <= c; window 1..4 where applicable; MAX_CACHE_SIZE at its real value "
+        "(single batch)")
+for (n, d, f, q) in [
+    ("c06_transform_step", "compute_transform: afterwards len = source len and out[k] = f(k, src[k]) for a symbolic k", ["vecdb::EagerVec::{compute_transform,compute_init,repeat_until_complete,batch_end}", "vecdb::WritableVec::{validate_computed_version_or_reset,checked_push_at,truncate_if_needed}"], True),
+    ("c06_sum_step", "compute_sum (fixed window, leaving-value cursor): equals the from-scratch windowed sum", ["vecdb::EagerVec::compute_sum", "vecdb::Cursor"], False),
+    ("c06_max_step", "compute_max (monotonic deque rebuilt on resume): equals the from-scratch windowed maximum", ["vecdb::EagerVec::{compute_max,compute_monotonic_window}"], True),
+    ("c06_cumulative_step", "compute_cumulative: equals the from-scratch prefix sum", ["vecdb::EagerVec::compute_cumulative"], True),
+]:
+    reg(H(n, "vecdb", "C06", mem=10, timeout=1500, tier="quick" if q else "thorough", desc=d, bounds=C06B, functions=f,
+          stubs=[FMT, WCAP0], assumes=["max_from <= c (the caller's obligation in the statement)", "c <= source length"]))
+reg(H("c19_version_step", "vecdb", "C19", mem=10, timeout=1500,
+      desc="compute_transform with symbolic recorded vs presented combined version: changed => everything discarded (reset) and re-evaluated from index 0, new version recorded and marked for write-back; unchanged => nothing below min(max_from, len) re-evaluated or altered, no reset",
+      bounds=C06B + "; source version < 1000, recorded version < 2000 (any relation: equal, higher, lower)",
+      functions=["vecdb::WritableVec::validate_computed_version_or_reset", "vecdb::Header::{update_computed_version,modified,computed_version}", "vecdb::EagerVec::compute_init"],
+      stubs=[FMT, WCAP0]))
 
 
 def select(prop, tier, seed=0):
     out = []
     for h in REG:
-        if h.prop != prop:
+        if h.prop != prop and prop not in h.also:
             continue
-        if tier == "quick" and h.tier != "quick":
-            continue
+        if tier == "quick":
+            if h.quick_for is not None:
+                if prop not in h.quick_for:
+                    continue
+            elif h.tier != "quick":
+                continue
         out.append(h)
     return out
 
 
 def props():
-    return sorted({h.prop for h in REG})
+    ps = set()
+    for h in REG:
+        ps.add(h.prop)
+        ps.update(h.also)
+    return sorted(ps)
 
 
 LEVEL = {"C18": "other"}
